@@ -207,13 +207,15 @@ class AceGroup(AceBase, Group):
 
         :param platform: Platform: "asa", "ios", "nxos". Default "ios".
         """
-        self._platform = h.init_platform(platform=platform)
+        platform = h.init_platform(platform=platform)
 
-        for item in self._items:
+        items = self._items
+        if platform == "nxos":
+            self.ungroup_ports()
+        for item in items:
             item.type = self._type
-            if self._platform == "nxos":
-                self.ungroup_ports()
-            item.platform = self._platform
+            item.platform = platform
+        self._platform = platform
 
         data = self.data(uuid=True)
         self.__init__(**data)  # type: ignore
